@@ -269,10 +269,16 @@ class ImplicitFuncComp(ImplicitComponent):
                 tangents = self._get_tangents(invals, 'fwd', coloring, argnums,
                                               trans=self._get_jac2func_inds(self._inputs,
                                                                             self._outputs))
-                j = [np.asarray(a).reshape((shape_to_len(a.shape[:-1]), a.shape[-1]))
-                     for a in jac_forward(self._apply_nonlinear_func_jax, argnums,
-                                          tangents)(*invals)]
-                j = coloring._expand_jac(np.vstack(j), 'fwd').toarray()
+                j = []
+                for a in jac_forward(self._apply_nonlinear_func_jax, argnums, tangents)(*invals):
+                    a = np.asarray(a)
+                    if a.ndim < 2:
+                        a = a.reshape((1, a.size))
+                    else:
+                        a = a.reshape((shape_to_len(a.shape[:-1]), a.shape[-1]))
+                    j.append(a)
+                # a single scalar residual gives one entry per color: one row of the compressed jac
+                j = coloring._expand_jac(np.vstack(j).reshape((osize, -1)), 'fwd').toarray()
             else:
                 tangents = self._get_tangents(invals, 'fwd', coloring, argnums)
                 j = []
